@@ -47,12 +47,13 @@ BOUNDS = {
   "quick": "configuration sweep: 6 inputs (TTML, SCC, 2 STL, SRT, VTT) x 3 outputs x 157 configurations (none, {}, every "
            "documented key with its valid+boundary menu one at a time, per-module products of 2-valued domains, a "
            "cross-module product) x filters {[],[lcd]}; option sweep: 5 inputs x 3 outputs x 3 filter lists x 6 input-type "
-           "selections x 5 output-type selections x {none, --config, --config_file, both}; filter sweep: 5 inputs x 3 "
+           "selections x 5 output-type selections x {none, --config, --config_file, both, both with a file of one section, both with a file of one key per section}; filter sweep: 5 inputs x 3 "
            "outputs x all 85 sequences of <= 3 names over {lcd, 2 probe filters, unknown} x {no, with configuration}; "
            "invalid menus (wrong JSON type, out of range, unknown keyword, malformed, null) for all 19 documented keys "
            "on every pipeline that parses the module x {--config, --config_file}; unsupported types/extensions/"
            "sub-commands; malformed configuration documents; histories: ALL sequences of <= 2 jobs from a menu of 9 "
-           "(unmerged) + sequences of <= 3 jobs merged on the global-state fingerprint; hash seeds 0..3 on 30 jobs",
+           "(unmerged) + sequences of <= 3 jobs merged on the global-state fingerprint; configuration pairs in one interpreter (per documented key: Python-equal values of "
+           "different JSON types, a valid then an invalid value, two valid values); hash seeds 0..3 on 30 jobs",
   "thorough": "as quick; histories: ALL sequences of <= 3 jobs (unmerged) + sequences of <= 4 jobs merged on the fingerprint",
 }
 ASSUMPTIONS = [
@@ -640,7 +641,9 @@ FILTER_CFG = {"c19a": {"suffix": "A1"}, "lcd": {"safe_area": 5, "color": "yellow
               "vtt_writer": {"text_align": True}, "general": {"document_lang": "es-419"}}
 IN_MODES = ["ext", "EXT", "Ext", "itype", "ITYPE+other-ext", "Itype+no-ext"]
 OUT_MODES = ["ext", "EXT", "Ext", "otype+neutral-ext", "OTYPE+other-ext"]
-DELIVERY = ["none", "inline", "file", "both"]
+# both-sections: the file holds one section only, the inline configuration all of them (a section-wise merge leaks the others);
+# both-keys: the file holds one key of every section, the inline configuration all keys (a key-wise merge leaks the others)
+DELIVERY = ["none", "inline", "file", "both", "both-sections", "both-keys"]
 
 
 def _mixed(s):
@@ -672,6 +675,12 @@ def _deliver(job, mode, cfg, decoy):
   elif mode == "both":
     job["config_file"] = cfg
     job["config"] = decoy
+  elif mode == "both-sections":
+    job["config_file"] = {"general": decoy["general"]}
+    job["config"] = cfg
+  elif mode == "both-keys":
+    job["config_file"] = {sec: dict(list(keys.items())[:1]) for sec, keys in cfg.items()}
+    job["config"] = cfg
   return job
 
 
@@ -1399,6 +1408,85 @@ def fam_histories(depth, merged):
 
 
 # ---------------------------------------------------------------------------------------------------
+# (c') pairs of configurations in one interpreter: a job must not depend on what an earlier job's configuration was
+
+_FRESH = {}
+
+
+def _fresh_result(job):
+  k = _jkey(job)
+  if k not in _FRESH:
+    _FRESH[k] = run_driver([job])["results"][0]
+  return _FRESH[k]
+
+
+def _aliases(v):
+  """values that compare equal to `v` in Python but are of another JSON type (True == 1 == 1.0, 10 == 10.0): a cache
+  keyed by the value confuses them"""
+  out = []
+  if isinstance(v, bool):
+    out += [int(v), float(v)]
+  elif isinstance(v, int):
+    out += [float(v)] + ([bool(v)] if v in (0, 1) else [])
+  return out
+
+
+def _pair_table(thorough):
+  table = []
+  for (mod, key), valid in VALID.items():
+    inp, out, fl = pipelines_for(mod)[0]
+    invalid = [v for _k, v in INVALID[(mod, key)]]
+    pairs = []
+    for v in valid:
+      for a in _aliases(v):
+        pairs += [(v, a), (a, v)]
+    for i in (invalid if thorough else invalid[:3]):
+      pairs.append((valid[0], i))
+      if thorough:
+        pairs += [(v, i) for v in valid[1:]] + [(i, valid[0])]
+    for v2 in valid[1:2]:
+      pairs += [(valid[0], v2), (v2, valid[0])]
+    seen = set()
+    for a, b in pairs:
+      kk = json.dumps([jenc(a), jenc(b)], sort_keys=True)
+      if kk not in seen:
+        seen.add(kk)
+        table.append((mod, key, a, b, inp, out, fl))
+  return table
+
+
+def check_config_pair(case, acc):
+  a, b = case["first"], case["second"]
+  both = run_driver([a, b])["results"]
+  for pos, (job, got) in enumerate(zip((a, b), both)):
+    want = _fresh_result(job)
+    if _result_sig(got) != _result_sig(want):
+      got_b = next(iter(got["files"].values()), b"")
+      want_b = next(iter(want["files"].values()), b"")
+      acc.violation("C19.history", f"config-pair:{case['module']}.{case['key']},job={pos + 1}", case,
+                    observed={"status": got["status"], "detail": got["detail"], "diff": _first_diff(got_b, want_b)},
+                    expected={"status": want["status"], "files": {k: len(v) for k, v in want["files"].items()}},
+                    note=f"job {pos + 1} of the pair ({case['module']}.{case['key']} = {case['values'][0]!r} then {case['values'][1]!r}) "
+                         "differs from the same job run alone in a fresh process")
+  acc.case(f"{both[0]['status']}-then-{both[1]['status']}", nontrivial=True, key=("pair", _jkey(a), _jkey(b)))
+
+
+def fam_config_pairs(thorough):
+  table = _pair_table(thorough)
+
+  def decode(i):
+    mod, key, a, b, inp, out, fl = table[i]
+    return {"first": mk_job(inp, out, filters=fl, config={mod: {key: copy.deepcopy(a)}}),
+            "second": mk_job(inp, out, filters=fl, config={mod: {key: copy.deepcopy(b)}}),
+            "module": mod, "key": key, "values": [copy.deepcopy(a), copy.deepcopy(b)]}
+  return Family("config-pairs", len(table), decode, check_config_pair, timeout=300, chunk=2,
+                note="two jobs in one fresh interpreter that differ in one configuration value: every documented key x {a valid value "
+                     "and a value that is equal to it in Python but of another JSON type (True/1/1.0, 10/10.0), both orders; a valid value "
+                     "then an invalid one" + (" (all pairs, both orders)" if thorough else " (first valid x first 3 invalid)") +
+                     "; two valid values, both orders}: each job must behave as when run alone in a fresh process")
+
+
+# ---------------------------------------------------------------------------------------------------
 # (d) hash seeds
 
 SEEDS = [0, 1, 2, 3]
@@ -1530,6 +1618,7 @@ def plan(tier, seed):
     fam_histories(depth, False),
     fam_histories(depth + 1, True),
     fam_hashseed(),
+    fam_config_pairs(tier != "quick"),
     fam_equiv_config(CONFIG_INPUTS),
     fam_equiv_options(ONE_PER_TYPE),
     fam_equiv_filters(ONE_PER_TYPE),
